@@ -195,3 +195,122 @@ Definition caller_claim (self_proto : bytes) (mixed : bool) (r : registry) (svla
 Definition caller_release (self_proto : bytes) (mixed : bool) (r : registry) (svlan cvlan : N) (mac sid : bytes)
   : registry :=
   if mixed then component_release self_proto r (make_tuple_key svlan cvlan mac) sid else r.
+
+(* ---- the two components around one registry and one event bus (end to end) ----
+   ipoe: handleDiscover (dhcpv4.go: LoadOrStore of the tuple's session, claimTuple only for a new
+   session) and handleSubscriberTerminate/resolveTerminateTarget (mutation.go, resolve.go);
+   pppoe: handlePADR (always a new session, addToIndexes overwrites c.sessions[tuple]) and
+   handleSubscriberTerminate/resolveTerminateTargetLocked/removeFromIndexes (component.go).
+   The bus delivers every terminate event to BOTH components (events/local/bus.go), including the
+   one that published it.  Sessions are Owner records (protocol, session id, tuple). *)
+Inductive variant := Defective | Repaired.
+
+Record world := mkW {
+  w_reg : registry;
+  w_ipoe : shard;                  (* ipoe c.sessions / sessionIndex: tuple -> its session *)
+  w_pp_key : shard;                (* pppoe c.sessions: tuple -> latest session *)
+  w_pp_all : list (key * bytes);   (* pppoe sessionIDIndex / sidIndex: every live session *)
+  w_next : N                       (* source of fresh session ids (uuid in the code) *)
+}.
+Definition world0 : world := mkW new_registry [] [] [] 0.
+
+Definition ipoe_sid (n : N) : bytes := [105; n]%N.
+Definition pppoe_sid (n : N) : bytes := [112; n]%N.
+
+Fixpoint find_sid (sid : bytes) (m : shard) : option owner :=
+  match m with
+  | [] => None
+  | (_, s) :: r => if bytes_eqb (o_sid s) sid then Some s else find_sid sid r
+  end.
+Fixpoint find_pp (sid : bytes) (l : list (key * bytes)) : option (key * bytes) :=
+  match l with
+  | [] => None
+  | (k, s) :: r => if bytes_eqb s sid then Some (k, s) else find_pp sid r
+  end.
+Fixpoint remove_pp (k : key) (sid : bytes) (l : list (key * bytes)) : list (key * bytes) :=
+  match l with
+  | [] => []
+  | (k', s) :: r => if key_eqb k' k && bytes_eqb s sid then remove_pp k sid r else (k', s) :: remove_pp k sid r
+  end.
+
+(* resolveTerminateTarget: by ev.Key first, then by ev.SessionID.  Defective (HEAD): whatever
+   session sits on the tuple.  Repaired: the session on the tuple only if it is the one named. *)
+Definition key_hit (v : variant) (sid : bytes) (found : option owner) : option owner :=
+  match found with
+  | Some s => match v with
+              | Defective => Some s
+              | Repaired => if bytes_eqb (o_sid s) sid then Some s else None
+              end
+  | None => None
+  end.
+
+Definition ipoe_terminate (v : variant) (w : world) (ev : bytes * key) : world :=
+  let (sid, k) := ev in
+  let target := match key_hit v sid (m_get k (w_ipoe w)) with
+                | Some s => Some s
+                | None => find_sid sid (w_ipoe w)
+                end in
+  match target with
+  | None => w
+  | Some s =>
+      mkW (component_release proto_ipoe (w_reg w) (o_key s) (o_sid s))
+          (m_del (o_key s) (w_ipoe w)) (w_pp_key w) (w_pp_all w) (w_next w)
+  end.
+
+Definition pppoe_terminate (v : variant) (w : world) (ev : bytes * key) : world :=
+  let (sid, k) := ev in
+  let target := match key_hit v sid (m_get k (w_pp_key w)) with
+                | Some s => Some (o_key s, o_sid s)
+                | None => find_pp sid (w_pp_all w)
+                end in
+  match target with
+  | None => w
+  | Some (k', sid') =>
+      (* removeFromIndexes: delete(c.sessions, key) whatever it points to, drop the session, Release *)
+      mkW (component_release proto_pppoe (w_reg w) k' sid')
+          (w_ipoe w) (m_del k' (w_pp_key w)) (remove_pp k' sid' (w_pp_all w)) (w_next w)
+  end.
+
+Definition deliver (v : variant) (w : world) (evs : list bytes) (k : key) : world :=
+  fold_left (fun w sid => pppoe_terminate v (ipoe_terminate v w (sid, k)) (sid, k)) evs w.
+
+Inductive e2e_op := EDiscover (k : key) | EPadr (k : key).
+
+Definition e2e_step (v : variant) (w : world) (o : e2e_op) : world :=
+  match o with
+  | EDiscover k =>
+      match m_get k (w_ipoe w) with
+      | Some _ => w                                   (* existing session: no claim *)
+      | None =>
+          let sid := ipoe_sid (w_next w) in
+          let (r', evs) := component_claim proto_ipoe (w_reg w) k sid in
+          deliver v (mkW r' (m_set k (mkOwner proto_ipoe sid k) (w_ipoe w)) (w_pp_key w) (w_pp_all w)
+                         (N.succ (w_next w))) evs k
+      end
+  | EPadr k =>
+      let sid := pppoe_sid (w_next w) in
+      let (r', evs) := component_claim proto_pppoe (w_reg w) k sid in
+      deliver v (mkW r' (w_ipoe w) (m_set k (mkOwner proto_pppoe sid k) (w_pp_key w))
+                     ((k, sid) :: w_pp_all w) (N.succ (w_next w))) evs k
+  end.
+Definition e2e_run (v : variant) (w : world) (ops : list e2e_op) : world := fold_left (e2e_step v) ops w.
+
+(* observation per tuple: live ipoe sessions, live pppoe sessions, protocol of the registry owner *)
+Definition count_pp (k : key) (l : list (key * bytes)) : nat :=
+  length (filter (fun e => key_eqb (fst e) k) l).
+Definition e2e_snapshot (w : world) (k : key) : nat * nat * option bytes :=
+  (match m_get k (w_ipoe w) with Some _ => 1 | None => 0 end,
+   count_pp k (w_pp_all w),
+   match reg_get (w_reg w) k with Some o => Some (o_proto o) | None => None end).
+
+(* hypothesis of the end-to-end theorems: no PADR for a tuple while a PPPoE session for that tuple
+   is still live (several PPPoE sessions of one host are a PPPoE matter, not mixed access) *)
+Fixpoint no_repadr (v : variant) (w : world) (ops : list e2e_op) : bool :=
+  match ops with
+  | [] => true
+  | o :: rest =>
+      match o with
+      | EPadr k => Nat.eqb (count_pp k (w_pp_all w)) 0
+      | _ => true
+      end && no_repadr v (e2e_step v w o) rest
+  end.
